@@ -56,7 +56,7 @@ def rec_snapshot(fc: FuelConsumption):
     out = []
     for f in fc.fuels:
         m = f.mass_or_mass_fraction
-        out.append((kind_key(f), np.array(m, dtype=float).copy() if isinstance(m, np.ndarray) else float(m)))
+        out.append((kind_key(f), np.array(m, dtype=float).copy() if (isinstance(m, np.ndarray) and m.ndim > 0) else float(m)))
     return out
 
 
